@@ -4,3 +4,5 @@ import WrglModel.Props.C09
 #print axioms Wrgl.C09_transfer_closed
 #print axioms Wrgl.C09_any_packfile_size
 #print axioms Wrgl.C09_repeat_lists_nothing
+#print axioms Wrgl.C09_tables_within_depth
+#print axioms Wrgl.C09_transfer_closed_multi
